@@ -1,4 +1,112 @@
 import PeptVerif.Model.Proto
-/-! driver for C17 (placeholder: replies bad-op to everything until the model is written) -/
-def step (_line : String) : String := "bad-op"
-def main : IO Unit := Proto.runDriver step
+import PeptVerif.Model.Score
+import PeptVerif.Spec.Score
+/-! driver for C17: the model of score.py and the brute-force specification, both evaluated at `Float`.
+Floats travel as the decimal value of their 64 IEEE bits. -/
+open Proto Score
+
+def parseF? (s : String) : Option Float := s.toNat?.map fun n => Float.ofBits n.toUInt64
+
+def parseFList? (s : String) : Option (List Float) :=
+  if s.isEmpty then some [] else (s.splitOn ",").mapM parseF?
+
+def parseOptFList? (s : String) : Option (Option (List Float)) :=
+  if s == "None" then some none else (parseFList? s).map some
+
+def parseNatList? (s : String) : Option (List Nat) :=
+  if s.isEmpty then some [] else (s.splitOn ",").mapM (·.toNat?)
+
+def showF (x : Float) : String := toString x.toBits.toNat
+
+def showNats (l : List Nat) : String := ",".intercalate (l.map toString)
+
+def showWin : Option (Nat × Nat) → String
+  | none => "N"
+  | some (s, e) => toString s ++ ":" ++ toString e
+
+def showHit : Hit → String
+  | .none => "N"
+  | .one i => toString i
+  | .many l => "[" ++ showNats l ++ "]"
+
+def parseHit? (s : String) : Option Hit :=
+  if s == "N" then some .none
+  else if s.startsWith "[" && s.endsWith "]" then
+    (parseNatList? ((s.drop 1).dropEnd 1).toString).map .many
+  else s.toNat?.map .one
+
+def parseHits? (s : String) : Option (List Hit) :=
+  if s.isEmpty then some [] else (s.splitOn ";").mapM parseHit?
+
+def showExcept {β : Type} (f : β → String) : Except Err β → String
+  | .ok v => f v
+  | .error e => e.show
+
+def parseCovIn? (s : String) : Option CovIn :=
+  match s.splitOn ":" with
+  | [k, c, ion, a, b] => do
+    let k ← k.toNat?; let c ← c.toNat?; let a ← a.toNat?; let b ← b.toNat?
+    pure ⟨k, c, ion, a, b⟩
+  | _ => none
+
+def parseCovIns? (s : String) : Option (List CovIn) :=
+  if s.isEmpty then some [] else (s.splitOn ";").mapM parseCovIn?
+
+def firstBad (l : List Bool) : String :=
+  match l.findIdx? (· == false) with
+  | none => "ok"
+  | some i => "bad:" ++ toString i
+
+def step (line : String) : String :=
+  match splitTab line with
+  | ["gmi", tt, tol, xs, ys] =>
+    match parseF? tol, parseFList? xs, parseFList? ys with
+    | some tol, some xs, some ys =>
+      match Tol.ofString? tt with
+      | none => Err.valueError.show
+      | some t => ";".intercalate ((getMatchedIndices t tol xs ys).map showWin)
+    | _, _, _ => "bad-op"
+  | ["ms", mode, tt, tol, xs, ys, ints] =>
+    match parseF? tol, parseFList? xs, parseFList? ys, parseOptFList? ints with
+    | some tol, some xs, some ys, some ints =>
+      match Tol.ofString? tt, Mode.ofString? mode with
+      | some t, some m => showExcept (fun hs => ";".intercalate (hs.map showHit)) (matchSpectra m t tol xs ys ints)
+      | _, _ => Err.valueError.show
+    | _, _, _, _ => "bad-op"
+  | ["spec", tt, tol, xs, ys] =>
+    match parseF? tol, parseFList? xs, parseFList? ys, Tol.ofString? tt with
+    | some tol, some xs, some ys, some t => ";".intercalate ((bruteForce t tol xs ys).map showNats)
+    | _, _, _, _ => "bad-op"
+  | ["check", mode, tt, tol, xs, ys, ints, ans] =>
+    match parseF? tol, parseFList? xs, parseFList? ys, parseFList? ints, parseHits? ans, Tol.ofString? tt,
+        Mode.ofString? mode with
+    | some tol, some xs, some ys, some ints, some hits, some t, some m =>
+      if hits.length != xs.length then "bad:length"
+      else firstBad ((xs.zip hits).map fun (x, h) => hitOk m ys ints x (window (inWindow t tol) ys x) h)
+    | _, _, _, _, _, _, _ => "bad-op"
+  | ["gfm", mode, tt, tol, fmz, mzs, ints] =>
+    match parseF? tol, parseFList? fmz, parseFList? mzs, parseFList? ints with
+    | some tol, some fmz, some mzs, some ints =>
+      match Mode.ofString? mode with
+      | none => Err.valueError.show
+      | some m =>
+        match Tol.ofString? tt with
+        | none => Err.valueError.show
+        | some t =>
+          showExcept (fun ms => ";".intercalate (ms.map fun m => toString m.frag ++ ":" ++ showF m.mz ++ ":" ++ showF m.inten))
+            (getFragmentMatches m t tol ((List.range fmz.length).zip fmz) mzs ints)
+    | _, _, _, _ => "bad-op"
+  | ["mip", mmz, mint, ints] =>
+    match parseFList? mmz, parseFList? mint, parseFList? ints with
+    | some mmz, some mint, some ints =>
+      if mmz.length != mint.length then "bad-op" else showF (matchedIntensityPercentage (mmz.zip mint) ints)
+    | _, _, _ => "bad-op"
+  | ["cov", dedupe, n, ents] =>
+    match parseBool? dedupe, n.toNat?, parseCovIns? ents with
+    | some d, some n, some ents =>
+      showExcept (fun cov => ";".intercalate (cov.map fun (l, c) => toString l.1 ++ ":" ++ l.2 ++ "=" ++ showNats c))
+        (matchCoverage d n ents)
+    | _, _, _ => "bad-op"
+  | _ => "bad-op"
+
+def main : IO Unit := runDriver step
